@@ -31,9 +31,12 @@ CANARIES = [
     ("plus-order", "ptera/overlay.py",
      "        return type(self)(self.handler_pairs + handler_pairs)",
      "        return type(self)(handler_pairs + self.handler_pairs)", "C04", "caught"),
-    ("stale-override", "ptera/probe.py",
-     "        self._value = ABSENT\n        super()._emit(data, acc=acc, element=element)",
-     "        super()._emit(data, acc=acc, element=element)", "C04", "caught"),
+    # (was "stale-override": the slot not cleared before an emission; fix 31fe00e restores the
+    # enclosing delivery's value after every delivery, which makes that slip harmless -- the canary
+    # now undoes the restoring instead: the value of a nested delivery leaks into the outer one)
+    ("no-restore-enclosing", "ptera/probe.py",
+     "        finally:\n            self._value = enclosing\n",
+     "        finally:\n            pass\n", "C04", "caught"),
     ("no-global-remove", "ptera/probe.py",
      "        global_probes.remove(self)\n", "        pass\n", "C05", "caught"),
     ("exception-only", "ptera/transform.py",
